@@ -548,6 +548,14 @@ Qed.
 
 (* ---- deserialize (serialize s) ---- *)
 
+Lemma written_data_noskip v (st0 : store) (D : list N) :
+  (forall id z, lookup st0 id = Some z -> sz_skip_value v z = false) ->
+  map (fun id => (id, written_value v (lookup st0 id))) D = map (fun id => (id, lookup st0 id)) D.
+Proof.
+  intros H. apply map_ext. intros id. unfold written_value. destruct (lookup st0 id) as [z|] eqn:E; [|reflexivity].
+  now rewrite (H id z E).
+Qed.
+
 Lemma restore_lookup v (st0 : store) : forall (D : list N) (acc : store) k,
   sz_undeclared_restored v = false ->
   lookup (restore_store v (map (fun id => (id, lookup st0 id)) D) acc) k =
@@ -621,7 +629,7 @@ Proof.
   assert (Hkf : keep_flag e false = false) by (unfold keep_flag; destruct e; reflexivity).
   rewrite !Hkf. rewrite !orb_false_r.
   repeat split; try reflexivity.
-  - now apply restore_equiv.
+  - rewrite written_data_noskip by reflexivity. now apply restore_equiv.
   - now apply dq_rebuild.
   - destruct e; reflexivity.
 Qed.
@@ -687,7 +695,9 @@ Hypothesis step_stable_notice : forall l x,
   step l x = (upd_flags l false true, emit TStable x, RC_MACROSTEPPED).
 
 Lemma roundtrip_variant v rc s sn :
-  Ii s -> sz_undeclared_restored v = false -> serialize e c v own_md5 rc s = Some sn ->
+  Ii s -> sz_undeclared_restored v = false ->
+  (forall id z, lookup (x_store (i_x s)) id = Some z -> sz_skip_value v z = false) ->
+  serialize e c v own_md5 rc s = Some sn ->
   exists r, deserialize e v own_md5 fresh sn = DsOk r /\
     l_cfg (i_l r) = l_cfg (i_l s) /\ l_hist (i_l r) = l_hist (i_l s) /\ l_initd (i_l r) = l_initd (i_l s) /\
     l_stable (i_l r) = (if sz_stable_lost v then false else l_stable (i_l s)) /\
@@ -697,7 +707,7 @@ Lemma roundtrip_variant v rc s sn :
     i_dq r = (if sz_delay_lost v then [] else i_dq s) /\ x_iq (i_x r) = [] /\ x_out (i_x r) = [] /\
     l_init (i_l r) = true /\ l_spont (i_l r) = false /\ l_cancelled (i_l r) = false.
 Proof.
-  intros Hs Hu Hser. unfold serialize in Hser. destruct (serializable rc); [|discriminate].
+  intros Hs Hu Hskip Hser. unfold serialize in Hser. destruct (serializable rc); [|discriminate].
   inversion Hser as [Hsn]. clear Hser.
   pose proof Hs as [Hl [Hk _] _ Hdq].
   destruct (enc_from_Il _ Hl) as (E1 & E2 & E3). pose proof (Ii_inv_enc s Hs) as E4.
@@ -713,7 +723,7 @@ Proof.
   - destruct (sz_stable_lost v); [reflexivity|apply orb_false_r].
   - destruct (sz_final_lost v); [reflexivity|apply orb_false_r].
   - destruct (sz_final_lost v); [reflexivity|apply orb_false_r].
-  - now apply restore_equiv.
+  - rewrite written_data_noskip by exact Hskip. now apply restore_equiv.
   - destruct (sz_delay_lost v); [reflexivity|now apply dq_rebuild].
   - destruct e; reflexivity.
 Qed.
@@ -788,7 +798,7 @@ Qed.
 (* _partial for whole continuations after a MACROSTEPPED snapshot: one extra notice, then identical *)
 Theorem pinned_continuation_generic v fuel k ins sp sn r :
   e = ELarge ->
-  sz_stable_lost v = true -> sz_undeclared_restored v = false ->
+  sz_stable_lost v = true -> sz_undeclared_restored v = false -> (forall z, sz_skip_value v z = false) ->
   irun_to fuel k fresh ins = Some sp -> st_rc sp = RC_MACROSTEPPED ->
   (sz_delay_lost v = true -> i_dq (st_state sp) = []) ->
   Forall plain (x_eq (i_x (st_state sp))) ->
@@ -798,10 +808,10 @@ Theorem pinned_continuation_generic v fuel k ins sp sn r :
     since r (irun (S fuel') r ins') =
     [TStable; TRet RC_MACROSTEPPED; cfg_token c (i_l (st_state sp))] ++ since (st_state sp) (irun fuel' (st_state sp) ins').
 Proof.
-  intros He Hsl Hu Hrun Hrc Hdl Hpl Hser Hdes fuel' ins'.
+  intros He Hsl Hu Hsk Hrun Hrc Hdl Hpl Hser Hdes fuel' ins'.
   pose proof (irun_to_boundary fuel k ins sp Hrun) as [Hi Hb].
   destruct Hb as [(_ & Hiq & Hflags)|[Hf _]]; [|rewrite Hrc in Hf; discriminate].
-  destruct (roundtrip_variant v _ _ _ Hi Hu Hser) as (r0 & Hd & C1 & C2 & C3 & C4 & C5 & C6 & Hst & Heq & Hinv & Hdq & Hiqr & Hout & Hin & Hsp & Hca).
+  destruct (roundtrip_variant v _ _ _ Hi Hu (fun _ z _ => Hsk z) Hser) as (r0 & Hd & C1 & C2 & C3 & C4 & C5 & C6 & Hst & Heq & Hinv & Hdq & Hiqr & Hout & Hin & Hsp & Hca).
   rewrite Hdes in Hd. inversion Hd; subst r0. clear Hd.
   pose proof Hflags as (F1 & F2 & F3 & F4 & F5 & F6).
   assert (Hl : i_l r = upd_flags (i_l (st_state sp)) false false).
@@ -930,7 +940,7 @@ Qed.
    undefined values undefined), the resumed interpreter emits exactly one extra stable-configuration notice
    and then the same continuation as the original, for every continuation *)
 Theorem resume_pinned_partial_lemma v fuel k ins sp sn r :
-  sz_stable_lost v = true -> sz_undeclared_restored v = false ->
+  sz_stable_lost v = true -> sz_undeclared_restored v = false -> (forall z, sz_skip_value v z = false) ->
   irun_to ELarge c lstep fuel k fresh ins = Some sp -> st_rc sp = RC_MACROSTEPPED ->
   (sz_delay_lost v = true -> i_dq (st_state sp) = []) ->
   Forall plain (x_eq (i_x (st_state sp))) ->
@@ -953,6 +963,25 @@ Proof.
   - apply large_stable_notice.
   - apply large_boundary_pre.
   - reflexivity.
+Qed.
+
+(* _partial for a variant that leaves values out of the state string (sz_skip_value): at any boundary of any run at
+   which no variable holds such a value, every variable is restored *)
+Theorem roundtrip_state_unless_skipped_lemma v fuel k ins sp sn :
+  sz_undeclared_restored v = false ->
+  irun_to ELarge c lstep fuel k fresh ins = Some sp ->
+  (forall id z, lookup (x_store (i_x (st_state sp))) id = Some z -> sz_skip_value v z = false) ->
+  serialize ELarge c v md5 (st_rc sp) (st_state sp) = Some sn ->
+  exists r, deserialize ELarge v md5 fresh sn = DsOk r /\
+            store_equiv (x_store (i_x (st_state sp))) (x_store (i_x r)) /\
+            l_cfg (i_l r) = l_cfg (i_l (st_state sp)) /\ l_hist (i_l r) = l_hist (i_l (st_state sp)) /\
+            x_eq (i_x r) = x_eq (i_x (st_state sp)).
+Proof.
+  intros Hu Hrun Hskip Hser.
+  pose proof (L_irun_to_boundary fuel k ins sp Hrun) as [Hi _].
+  destruct (roundtrip_variant ELarge c Il L_enc L_enc_inv md5 v _ _ _ Hi Hu Hskip Hser)
+    as (r & Hd & C1 & C2 & _ & _ & _ & _ & Hst & Heq & _).
+  exists r. auto.
 Qed.
 
 (* U: a state string of a document with another digest is rejected; with the check in front of the queue
@@ -1001,7 +1030,8 @@ Definition w_history : tree :=
          leaf KState 4 [ttr 102 ev_e 9] [] []].
 
 Definition only (d s f q u : bool) : sz_variant :=
-  {| sz_delay_lost := d; sz_stable_lost := s; sz_final_lost := f; sz_queue_before_md5 := q; sz_undeclared_restored := u |}.
+  {| sz_delay_lost := d; sz_stable_lost := s; sz_final_lost := f; sz_queue_before_md5 := q; sz_undeclared_restored := u;
+     sz_skip_value := fun _ => false |}.
 Definition dg : bytes := [1%N].
 Definition dg2 : bytes := [2%N].
 
@@ -1095,3 +1125,30 @@ Lemma foreign_unclean_refuted :
   | _ => False
   end.
 Proof. vm_compute. split; reflexivity. Qed.
+
+(* ---- values left out of the state string (sz_skip_value) ---- *)
+
+(* corpus doc-empty-value analogue in the integer store: Var1 = 0; on e the value is logged *)
+Definition w_skipped : tree :=
+  TNode KScxml 0 None [] [] [] [(1%N, INum 0)]
+        [leaf KState 1 [{| tt_vid := 101; tt_event := Some ev_e; tt_cond := None; tt_targets := None; tt_internal := false;
+                           tt_body := [ILog 106 (IVar 1)] |}] [] []].
+
+Definition skip_zero : sz_variant :=
+  {| sz_delay_lost := false; sz_stable_lost := false; sz_final_lost := false; sz_queue_before_md5 := false;
+     sz_undeclared_restored := false; sz_skip_value := fun z => (z =? 0)%Z |}.
+
+(* a variant that leaves the value 0 out loses it: the original logs 0, the resumed interpreter -- whose <data>
+   initialisation is skipped because the initialised-data set is restored -- has no value and raises error.execution *)
+Lemma skipped_value_refuted :
+  chart_named (flatten false w_skipped) = true /\
+  differs (sr_large lg_fixed ex_fixed skip_zero false w_skipped dg dg 20 0 [InEv ev_e]) = true /\
+  match sr_large lg_fixed ex_fixed skip_zero false w_skipped dg dg 20 0 [InEv ev_e] with
+  | Some res => match sr_des res with
+                | Some (DsOk r) => lookup (x_store (i_x (st_state (sr_stop res)))) 1%N = Some 0%Z /\ lookup (x_store (i_x r)) 1%N = None
+                | _ => False
+                end
+  | None => False
+  end /\
+  differs (sr_large lg_fixed ex_fixed sz_fixed false w_skipped dg dg 20 0 [InEv ev_e]) = false.
+Proof. vm_compute. repeat split; reflexivity. Qed.
